@@ -45,7 +45,7 @@ func main() {
 	r.Floor("pool.sizelimit.cut", 3)
 	r.Floor("pool.with-timer", 3)
 	r.Floor("replay.with-timer.ok", 2)
-	r.Assume("the 40 lines of miner.packBlock glue are transcribed in simnode/miner.go (the engine-level harness uses the real miner); consensus callbacks are not involved (single consensus)")
+	r.Assume("blocks are assembled by the engine's real miner.packBlock / confirmBlockForMiner and received through the real Miner.ProcBlock (verif export shims); consensus callbacks are a null consensus")
 	r.Finish()
 }
 
